@@ -866,6 +866,21 @@ class Engine:
                 for o in t["args"]:
                     if "place" in o:
                         used.add(o["place"]["l"])
+        # cells written through a pointer that is not a tracked reference (e.g. `(*self).field = ..` with self a
+        # parameter): the whole pointee is loop-carried
+        for bi in blocks:
+            blk = body["blocks"][bi]
+            places = [s_["place"] for s_ in blk["stmts"] if s_["k"] == "assign"]
+            if blk["term"]["k"] == "call":
+                places.append(blk["term"]["dest"])
+            for pl in places:
+                if pl["p"] and pl["p"][0]["k"] == "deref":
+                    v = st.store.get(("L", fr.fid, pl["l"]))
+                    if v is not None and v[0] != "ref" and pl["l"] not in written:
+                        cell = ("M", v)
+                        old = st.store.get(cell) or self.cell_initial(cell)
+                        if not (isinstance(old, tuple) and old and old[0] == "loop"):
+                            st.store[cell] = ("loop", (body["id"], header), ("loc", cell, ()), old)
         # locations reachable through mutable references held in locals used by the loop
         locs = set()
         for l in used | written | borrowed:
